@@ -8,13 +8,74 @@ from symx.world import World, func_hash
 _WORLDS = {}
 
 
-def world(key, symbolic, modules, extra=None, extra_by_module=None):
+def world(key, symbolic, modules, extra=None, extra_by_module=None, nodes=False):
     """One World per (key, mode) per process.  Stubs that need per-path state should hold it in
     a mutable object created by the harness body."""
     k = (key, bool(symbolic))
     if k not in _WORLDS:
-        _WORLDS[k] = World(modules, symbolic=symbolic, extra=extra, extra_by_module=extra_by_module)
+        _WORLDS[k] = World(modules, symbolic=symbolic, extra=extra, extra_by_module=extra_by_module, nodes=nodes)
     return _WORLDS[k]
+
+
+# ---- trees of symbolic nodes (symx.nodes) -> one task graph
+
+
+def _own_layer(node):
+    """does the node's class define its own _layer (not the materialising default)?"""
+    from dask_array._expr import ArrayExpr
+
+    real = type(node).__dict__.get("_symx_real", type(node))
+    for klass in real.__mro__:
+        if "_layer" in klass.__dict__:
+            return klass is not ArrayExpr and klass.__module__.startswith("dask_array")
+    return False
+
+
+def lower_tree(node, depth=0):
+    """Minimal stand-in for Expr.lower_completely on symbolic nodes: apply the node's own
+    ``_lower`` until it has a layer of its own, then lower its dependencies (in place)."""
+    from dask._expr import Expr
+
+    if depth > 12:
+        raise RuntimeError("lowering does not settle")
+    for _ in range(8):
+        if _own_layer(node):
+            break
+        low = getattr(node, "_lower", None)
+        out = low() if low is not None else None
+        if out is None:
+            break
+        node = out
+    if not _own_layer(node):
+        raise NotImplementedError(f"{type(node).__name__} has no _layer after lowering")
+    for i, op in enumerate(list(node.operands)):
+        if isinstance(op, Expr):
+            new = lower_tree(op, depth + 1)
+            if new is not op:
+                node.operands[i] = new
+                for k in ("chunks", "shape", "numblocks", "ndim"):
+                    node.__dict__.pop(k, None)
+    return node
+
+
+def collect_graph(node, dsk=None, seen=None):
+    """Union of the real ``_layer()`` of every node under `node` (dependencies first)."""
+    from dask._expr import Expr
+
+    dsk = {} if dsk is None else dsk
+    seen = set() if seen is None else seen
+    if node._name in seen:
+        return dsk
+    seen.add(node._name)
+    for op in node.operands:
+        if isinstance(op, Expr):
+            collect_graph(op, dsk, seen)
+    layer = node._layer()
+    dup = set(layer) & set(dsk)
+    if dup:
+        raise AssertionError(f"layer of {node._name} redefines keys {sorted(dup, key=repr)[:3]}")
+    dsk.update(layer)
+    return dsk
 
 
 def unit_hashes(specs):
